@@ -5,6 +5,7 @@
 From Coq Require Import List String NArith Bool.
 From Coq Require Import Permutation.
 From AM Require Import Rust.Ast Gen.Archive Ref.Tree Proofs.Tree Ref.Archive Proofs.Archive Tie.Archive Gen.Private Tie.Graph Gen.Embed Tie.Embed Ref.Embed Proofs.Embed.
+From AM Require Gen.Fs Tie.Fs.
 Import ListNotations.
 
 Theorem C04_listing_is_exactly_the_direct_children : forall t d l,
@@ -120,3 +121,12 @@ Proof.
   cbv zeta. split; [|vm_compute; reflexivity].
   repeat (constructor; [cbn; intuition (try discriminate; try congruence)|]). constructor.
 Qed.
+
+(* the FileSystem source hands back exactly the bytes fs::read returned for the entry's path, of any
+   length, and answers exists / read_dir from that path *)
+Theorem C04_code_filesystem_source :
+  fn_body Gen.Fs.FileSystem_read = Tie.Fs.expected_FileSystem_read /\
+  fn_body Gen.Fs.FileSystem_exists = Tie.Fs.expected_FileSystem_exists /\
+  fn_body Gen.Fs.FileSystem_path_of = Tie.Fs.expected_FileSystem_path_of /\
+  fn_body Gen.Fs.FileSystem_read_dir = Tie.Fs.expected_FileSystem_read_dir.
+Proof. exact Tie.Fs.filesystem_source_as_modelled. Qed.
